@@ -387,12 +387,24 @@ impl LightClientProtocol {
                     debug!("fork to number: {}", to_number);
                     let mut matched_blocks = self.peers.matched_blocks().write().expect("poisoned");
                     let mut start_number_opt = None;
-                    while let Some((start_number, _, _)) = self.storage.get_latest_matched_blocks()
+                    while let Some((start_number, blocks_count, blocks)) =
+                        self.storage.get_latest_matched_blocks()
                     {
                         if start_number > to_number {
                             debug!("remove matched blocks start from: {}", start_number);
                             self.storage.remove_matched_blocks(start_number);
                         } else {
+                            // A kept record which reaches beyond the fork point may list blocks
+                            // of the old chain: a block which was marked as proved (it was the
+                            // proved tip) has to be proved against the new last state.
+                            if start_number.saturating_add(blocks_count) > to_number + 1
+                                && blocks.iter().any(|(_, proved)| *proved)
+                            {
+                                let blocks =
+                                    blocks.into_iter().map(|(hash, _)| (hash, false)).collect();
+                                self.storage
+                                    .add_matched_blocks(start_number, blocks_count, blocks);
+                            }
                             start_number_opt = Some(start_number);
                             break;
                         }
